@@ -171,8 +171,12 @@ def allocation_order(policy, pseed=0):
     return Rng(pseed).shuffle(list(range(NGRAN)))
 
 
-def save(img, f, policy="nearest", pseed=0, convention="decb"):
-    """Peer SAVE.  Returns the slot used.  Raises DiskError('disk full') / DiskError('directory full')."""
+def save(img, f, policy="nearest", pseed=0, convention="decb", want_slot=None):
+    """Peer SAVE.  Returns the slot used.  Raises DiskError('disk full') / DiskError('directory full').
+
+    want_slot: put the entry into that directory slot if it is free (as on a disk where the slots in front of it were
+    used once and their files killed since): never-used ($FF) slots in front of it become deleted ($00) entries, which
+    Disk BASIC scans past."""
     s = expected_stream(f)
     ngran = max(1, -(-len(s) // GRAN))
     if convention == "tool" and len(s) % GRAN == 0 and len(s) > 0:
@@ -185,6 +189,11 @@ def save(img, f, policy="nearest", pseed=0, convention="decb"):
     if not slots:
         raise DiskError("directory full")
     slot = slots[0]
+    if want_slot is not None and want_slot in slots:
+        slot = want_slot
+        for s0 in range(slot):
+            if img[DIR + 32 * s0] == 0xFF:
+                img[DIR + 32 * s0] = 0x00
     gs = order[:ngran]
     for k, g in enumerate(gs):
         part = s[k * GRAN:(k + 1) * GRAN]
